@@ -19,14 +19,21 @@ def binding (s : String) : Option Cryptosign.Binding :=
 def int? (s : String) : Option Int :=
   if s.startsWith "-" then (s.drop 1).toNat?.map (fun n => - (n : Int)) else s.toNat?.map (fun n => (n : Int))
 
-/-- line protocol (every byte-string argument is hex, `-` = empty; text arguments are the hex of their octets):
+/-- a `str` argument of the line protocol: its code points in decimal, separated by `.` (`-` = empty) -/
+def cps (s : String) : Option Auth.Text :=
+  if s = "-" then some [] else (s.splitOn ".").mapM String.toNat?
+
+/-- line protocol (every byte-string argument is hex, `-` = empty; text arguments are the hex of their octets,
+`str` arguments that may hold any character — marked `:cps` — are code point lists as read by `cps`):
   `auth.sha1 m` `auth.sha256 m` `auth.hmac1 k m` `auth.hmac256 k m`
   `auth.pbkdf2 pw salt iters dklen` `auth.pbkdf2sha1 pw salt iters dklen`
   `auth.b64 x` `auth.b64d text` `auth.b32 x` `auth.b32d text` `auth.hex x` `auth.hexd text`
   `auth.wcs key challenge` `auth.derive secret salt iters keylen` `auth.cra secret challenge [salt iters keylen]`
   `auth.totp key counter` `auth.totpat secret now offset` `auth.totpcheck secret now ticket`
-  `auth.scram.am authid cnonce snonce salt iters cbind`
-  `auth.scram.proof sp authid cnonce snonce salt iters cbind`   (sp = KDF output, given)
+  `auth.utf8 text:cps`
+  `auth.scram.am authid:cps cnonce:cps snonce:cps salt:cps iters cbind:cps`
+  `auth.scram.proof sp authid:cps cnonce:cps snonce:cps salt:cps iters cbind:cps`   (sp = KDF output, given)
+  `auth.scram.kdf pbkdf2 password salt:cps iters`   (SaltedPassword of the PBKDF2 flavour)
   `auth.scram.welcome sp am alleged` `auth.scram.verify storedkey am proof`
   `auth.xor a b`
   `auth.cryptosign.data challengeText cid|none none|tls-unique|other`
@@ -75,14 +82,18 @@ def handle : List String → Option String
   | ["auth.totpcheck", s, now, t] => do
       let s ← Hex.decode s; let now ← now.toNat?; let t ← Hex.decode t
       pure (exc boolStr (Totp.check s now t))
+  | ["auth.utf8", t] => do let t ← cps t; pure (exc Hex.render (Auth.encodeUtf8 t))
   | ["auth.scram.am", a, cn, sn, s, i, cb] => do
-      let a ← Hex.decode a; let cn ← Hex.decode cn; let sn ← Hex.decode sn; let s ← Hex.decode s
-      let i ← i.toNat?; let cb ← Hex.decode cb
+      let a ← cps a; let cn ← cps cn; let sn ← cps sn; let s ← cps s
+      let i ← i.toNat?; let cb ← cps cb
       pure (exc Hex.render (Scram.authMessage a cn ⟨sn, s, i, cb⟩))
+  | ["auth.scram.kdf", "pbkdf2", pw, s, i] => do
+      let pw ← Hex.decode pw; let s ← cps s; let i ← i.toNat?
+      pure (exc Hex.render (Scram.saltedPassword (fun _ _ _ _ => .error .runtimeError) .pbkdf2 pw s.clip i))
   | ["auth.scram.proof", sp, a, cn, sn, s, i, cb] => do
       let sp ← Hex.decode sp
-      let a ← Hex.decode a; let cn ← Hex.decode cn; let sn ← Hex.decode sn; let s ← Hex.decode s
-      let i ← i.toNat?; let cb ← Hex.decode cb
+      let a ← cps a; let cn ← cps cn; let sn ← cps sn; let s ← cps s
+      let i ← i.toNat?; let cb ← cps cb
       pure (exc (fun (r : Bytes × Scram.Session) =>
           s!"{text r.1} {Hex.render (Scram.serverSignature Scram.sha256Prims r.2.saltedPassword r.2.authMessage)}")
         (Scram.onChallenge Scram.sha256Prims a cn ⟨sn, s, i, cb⟩ sp))
